@@ -39,4 +39,135 @@ def staticBody : Body → Option Nat
   | .derived .. => none
 end
 
+/-! ### what `encoded_len` relies on -/
+
+mutual
+/-- the static annotations of the layout agree with the types: a typedef / array element annotated
+    with a static width has that static size (what `Schema` computes; C16); a field is typed by a
+    struct without parent -/
+def lenWfTy : Ty → Bool
+  | .struct _ (.root _ items) => lenWfItems items
+  | .struct _ (.derived ..) => false
+  | _ => true
+def lenWfItem : Item → Bool
+  | .typedef _ ty sb => (match sb with | some n => staticTy ty == some n | none => true) && lenWfTy ty
+  | .optional _ ty _ _ => lenWfTy ty
+  | .array _ elem ew _ _ => (match ew with | .static w => staticTy elem == some w | _ => true) && lenWfTy elem
+  | _ => true
+def lenWfItems : Items → Bool
+  | .nil => true
+  | .cons i r => lenWfItem i && lenWfItems r
+def lenWfBody : Body → Bool
+  | .root _ items => lenWfItems items
+  | .derived _ parent _ _ items => lenWfItems items && lenWfBody parent && parent.hasPayload
+end
+
+/-- `lenItems` with the payload item counted as `n` octets -/
+def lenItemsP : Items → Value → Nat → Nat
+  | .nil, _, _ => 0
+  | .cons (.payload _) r, v, n => n + lenItemsP r v n
+  | .cons i r, v, n => lenItem i v + lenItemsP r v n
+
+/-- octets around an inner encoding of `n` octets, level by level up to the root -/
+def aroundLen : Body → Value → Nat → Nat
+  | .root _ items, v, n => lenItemsP items v n
+  | .derived _ parent _ _ items, v, n => aroundLen parent v (lenItemsP items v n)
+
+/-- the value an inheriting packet is serialized from: its data fields plus the constants its
+    constraints (and its ancestors') fix -/
+def withConstants (allCs : List (String × Nat)) (v : Value) : Value :=
+  Value.obj (v.fields ++ allCs.map fun (k, c) => (k, Value.int c))
+
+/-- length of the whole encoding as `encoded_len()` computes it: own items, wrapped by each
+    ancestor's items -/
+def encLen : Body → Value → Nat
+  | .root _ items, v => lenItems items v
+  | .derived _ parent _ allCs items, v =>
+    aroundLen parent (withConstants allCs v) (lenItems items (withConstants allCs v))
+
+/-! ### what the decoder relies on -/
+
+/-- the context entries a chunk binds, in the order the emitted code binds them -/
+def chunkKeys : List BitField → List Key
+  | [] => []
+  | .scalar id _ :: r => .val id :: chunkKeys r
+  | .flag id _ :: r => .val id :: chunkKeys r
+  | .enumTy id _ _ :: r => .val id :: chunkKeys r
+  | .size t _ _ :: r => .size t :: chunkKeys r
+  | .count t _ :: r => .count t :: chunkKeys r
+  | .elemSize t _ :: r => .esize t :: chunkKeys r
+  | .fixed .. :: r => chunkKeys r
+  | .reserved _ :: r => chunkKeys r
+
+/-- context entries available after an item -/
+def availAfter (avail : List Key) : Item → List Key
+  | .chunk fs => chunkKeys fs ++ avail
+  | _ => avail
+
+def Ty.selfGuarded : Ty → Bool
+  | .custom .. | .struct .. => true
+  | _ => false
+
+def Ty.isStruct : Ty → Bool
+  | .struct .. => true
+  | _ => false
+
+mutual
+/-- octets every successful decode consumes at least -/
+def minTy : Ty → Nat
+  | .scalar w => w / 8
+  | .enumTy _ e => e.width / 8
+  | .custom _ w => w / 8
+  | .struct _ b => minBody b
+def minItem : Item → Nat
+  | .chunk fs => chunkBits fs / 8
+  | .typedef _ ty _ => minTy ty
+  | .optional .. => 0
+  | .payload _ => 0
+  | .array _ _ _ _ pad => pad.getD 0
+def minItems : Items → Nat
+  | .nil => 0
+  | .cons i r => minItem i + minItems r
+def minBody : Body → Nat
+  | .root _ items => minItems items
+  | .derived _ parent _ _ _ => minBody parent
+end
+
+mutual
+/-- the layout is one the decoder generator handles: every context entry an item reads is bound
+    by an earlier chunk, plain typedef fields are custom fields or structs, elements without a
+    static width are structs that consume at least one octet (loops make progress), static
+    element widths are positive and agree with the element type -/
+def decWfTy : Ty → Bool
+  | .struct _ b => decWfBody b
+  | _ => true
+def decWfItem (avail : List Key) : Item → Bool
+  | .chunk _ => true
+  | .typedef _ ty _ => ty.selfGuarded && decWfTy ty
+  | .optional _ ty cid _ => avail.contains (.val cid) && decWfTy ty
+  | .payload mode =>
+    (match mode with
+     | .sized _ => avail.contains (.size "_payload_")
+     | .undelimited => false
+     | _ => true)
+  | .array id elem ew shape _ =>
+    decWfTy elem &&
+    (match ew with
+     | .static w => decide (w > 0) && (elem.selfGuarded || staticTy elem == some w)
+     | .dynamic => avail.contains (.esize id) && elem.selfGuarded
+     | .unknown => elem.selfGuarded && decide (minTy elem > 0)) &&
+    (match shape with
+     | .countField => avail.contains (.count id)
+     | .sizeField => avail.contains (.size id)
+     | _ => true)
+def decWfItems (avail : List Key) : Items → Bool
+  | .nil => true
+  | .cons i r =>
+    decWfItem avail i &&
+    decWfItems (availAfter avail i) r
+def decWfBody : Body → Bool
+  | .root _ items => decWfItems [] items
+  | .derived _ parent _ _ items => decWfBody parent && decWfItems [] items
+end
+
 end Pdlv
